@@ -621,7 +621,7 @@ MUTANTS = [
     dict(id="setitem-drops-unregister", module=_V, old="		_alias.unregister(self, old_id)\n", new="", rules=["a.bracket"]),
     dict(id="setitem-registers-old-id", module=_V, old="		_alias.register(self, id(new_tuple))", new="		_alias.register(self, old_id)",
          rules=["a.bracket"]),
-    dict(id="promote-drops-one-register", module=_V, count=3, nth=1,
+    dict(id="promote-drops-one-register", module=_V, count=4, nth=1,
          old="			_ALIAS_TRACKER.register(self, id(new_tuple))\n", new="", rules=["a.bracket"]),
     dict(id="setitem-old-id-before-promote", module=_V,
          edits=[(_V, "		_alias.check_writable(self, id(self._underlying))\n", "		_alias.check_writable(self, id(self._underlying))\n		old_id = id(self._underlying)\n", 1),
